@@ -29,3 +29,8 @@ def check(repo, rep, tier):
     # generated code: abandoned goal iterators are dropped (and thereby finalised) the moment their loop is left
     cm = rc.CompilerModel(repo)
     rep.run(re_.rule_goal_iterators_unnamed, cm, rep, 'C03.U9')
+    # no trace outside the binding cells either: evaluating a query writes no engine state and changes no stored fact, so
+    # that running it again gives the same answers
+    from .. import rules_state as rs
+    rep.run(rs.rule_queries_read_only, em, rep, 'C03.U10')
+    rep.run(rx.rule_facts_immutable, em, rep, 'C03.U11')
